@@ -35,7 +35,9 @@ class CSide:
         self.unions = set()
 
     def load(self, path, cwd, lang_flags, incs):
-        cmd = ["clang", "-fsyntax-only", "-w", "-Xclang", "-ast-dump=json"] + lang_flags + incs + [path]
+        # ISO_Fortran_binding.h (CFI_cdesc_t) ships with gcc, not with clang
+        gccinc = os.path.dirname(subprocess.run(["gcc", "-print-file-name=include/ISO_Fortran_binding.h"], capture_output=True, text=True).stdout.strip())
+        cmd = ["clang", "-fsyntax-only", "-w", "-Xclang", "-ast-dump=json"] + lang_flags + incs + (["-idirafter", gccinc] if gccinc else []) + [path]
         p = subprocess.run(cmd, cwd=cwd, capture_output=True, text=True, timeout=300)
         if not p.stdout.strip():
             return p.stderr[:400]
@@ -194,6 +196,34 @@ def fortran_view(text):
     return v
 
 
+def descriptor_dummies(ftext):
+    """{binding label: [True if the i-th dummy is passed by CFI descriptor]} read from the interface bodies themselves:
+    gfortran -fc-prototypes prints an assumed-length character dummy as 'char *', which hides the difference between a
+    descriptor and a plain pointer (F2018 18.3.6: assumed-shape, assumed-rank, allocatable, pointer and assumed-length
+    character dummies of a bind(C) procedure are passed as CFI_cdesc_t *)."""
+    code = "\n".join(re.sub(r"!.*", "", ln) for ln in ftext.split("\n"))
+    code = re.sub(r"&\s*\n\s*&?", "", code)
+    out = {}
+    for m in re.finditer(r"^\s*(?:pure\s+|elemental\s+)*(?:function|subroutine)\s+\w+\s*\(([^)]*)\)([^\n]*)\n(.*?)^\s*end\s+(?:function|subroutine)", code, re.M | re.S | re.I):
+        lab = re.search(r'bind\s*\(\s*C\s*,\s*name\s*=\s*"(\w+)"', m.group(2), re.I)
+        if not lab:
+            continue
+        dummies = [x.strip().lower() for x in m.group(1).split(",") if x.strip()]
+        desc = {}
+        for ln in m.group(3).split("\n"):
+            if "::" not in ln:
+                continue
+            spec, names = ln.split("::", 1)
+            spec_l = spec.lower().replace(" ", "")
+            by_desc = ("character(len=*)" in spec_l or "character(*)" in spec_l or "allocatable" in spec_l or ",pointer" in spec_l
+                       or "dimension(:" in spec_l or "dimension(.." in spec_l)
+            for nm in re.findall(r"(\w+)\s*(\([^)]*\))?", names):
+                d = by_desc or nm[1].replace(" ", "").startswith(("(:", "(.."))
+                desc[nm[0].lower()] = d
+        out[lab.group(1)] = [desc.get(x, False) for x in dummies]
+    return out
+
+
 def check_dir(name, out, lang, incs, objs, res, have_objects=True):
     """Compare every bind(C) entity of the modules in 'out' with the C side."""
     st = res["stats"]
@@ -222,6 +252,9 @@ def check_dir(name, out, lang, incs, objs, res, have_objects=True):
             continue
         ftext += p.stdout
     fv = fortran_view(ftext)
+    fdesc = {}
+    for f in ffiles:
+        fdesc.update(descriptor_dummies(open(os.path.join(out, f)).read()))
     cs = CSide()
     cfiles = sorted(f for f in os.listdir(out) if f.endswith((".h", ".c", ".cpp", ".cc", ".hpp")) and not f.startswith(("py", "lua"))
                     and not f.endswith(("_impl.c", "_impl.cpp")) and f not in ("driver.c",))
@@ -256,7 +289,18 @@ def check_dir(name, out, lang, incs, objs, res, have_objects=True):
         if len(fd["params"]) != len(cd["params"]):
             res["violations"].append({"mech": "argument-count-differs:%s" % _g(fname), "detail": "%s: %s Fortran view %r, C %r" % (name, fname, fd["params"], cd["params"])})
             continue
+        dd = fdesc.get(fname)
         for i, ((fn, ft), (cn, ct)) in enumerate(zip(fd["params"], cd["params"])):
+            if dd is not None and i < len(dd):
+                st["descriptor_passing_compared"] = st.get("descriptor_passing_compared", 0) + 1
+                c_is_desc = "CFI_cdesc_t" in ct
+                if dd[i] != c_is_desc:
+                    res["violations"].append({"mech": "descriptor-vs-plain-pointer:%s" % _shape(fname),
+                                              "detail": "%s: %s argument %d: the Fortran interface passes %s, the C function takes '%s %s'" % (
+                                                  name, fname, i + 1, "a CFI descriptor" if dd[i] else "a plain value / pointer", ct, cn)})
+                    continue
+                if dd[i]:
+                    continue        # both sides agree on a descriptor; what -fc-prototypes prints for it is not its C type
             fc, cc = iclass(ft, fv), iclass(ct, cs)
             st["arguments_compared"] = st.get("arguments_compared", 0) + 1
             if not compatible(fc, cc):
